@@ -4,10 +4,13 @@
    operator of [golang_ops] that is a prefix is stripped (an empty remainder is kept) and
    the bound text is only parsed in Contains (an unparsable bound matches nothing). *)
 From Verif.Base Require Import Bytes GoNum Ord.
+From Verif.Gen Require Operators.
 From Verif.Eco Require Import RangeCore.
 
 (* operators := []string{">=", "<=", "!=", ">", "<", "="} in parseSingleGoConstraint *)
-Definition golang_ops : list bytes := [$">="; $"<="; $"!="; $">"; $"<"; $"="].
+(* generated from the Go source on every run (tools/gen -> Gen/Operators.v) *)
+Definition golang_ops : list bytes :=
+  Eval cbv delta [Verif.Gen.Operators.golang_ops] in Verif.Gen.Operators.golang_ops.
 
 (* the switch in constraint.matches: "=", "==", "!=", ">", ">=", "<", "<=" *)
 Definition golang_sem (op : bytes) : cop :=
